@@ -160,6 +160,13 @@ psRes_t psVerifySig(psPool_t *pool,
         break;
 #  ifdef USE_ED25519
     case PS_ED25519:
+        if (sigLen != 64)
+        {
+            psTraceCrypto("Ed25519 signature must be 64 bytes\n");
+            rc = PS_VERIFICATION_FAILED;
+            *verifyResult = PS_FALSE;
+            goto out;
+        }
         rc = psEd25519Verify(sig,
                 msgIn,
                 msgInLen,
